@@ -145,6 +145,7 @@ Code(e) ==
   ELSE IF CASE e.ev = "sweep" -> SweepOK(e) [] e.ev = "name" -> NameOK(e) [] e.ev = "alias" -> AliasOK(e)
             [] e.ev = "nearmiss" -> NearMissOK(e) [] e.ev = "mask" -> MaskOK(e)
             [] e.ev = "lookup" -> LookupOK(e) [] e.ev = "get" -> GetOK(e) [] e.ev = "iter" -> IterOK(e) [] e.ev = "entry" -> EntryOK(e)
+            [] e.ev = "interleaved" -> e.mismatches = <<>>      \* a lookup is a function of (table, number) alone
             [] e.ev = "reflect" -> ReflectOK(e) [] e.ev = "operand" -> OperandOK(e)
             [] OTHER -> TRUE
        THEN 0 ELSE 1
